@@ -114,6 +114,8 @@ def run(tier, seed, replay):
             fs = forms(g["p"], r)
             for kind, src, ref in (fs if not quick else [fs[0], fs[1], fs[2], fs[3]] + r.sample(fs[4:], 2)):
                 add(src, r.sample(uni, 1 if quick else 3) + [r.choice(nullish)] + (r.sample(stringy, 2) if kind == "law-asserted" else []), ref)
+                if kind == "law-asserted" and ("reduce " in g["p"] or "foreach " in g["p"]):
+                    continue      # reduce / foreach are not path expressions of the property's grammar (jq 1.6 and gojq reject navigation from their state)
                 if kind == "law-asserted" or (kind == "paths" and any(m in src for m in ("[paths] == ", "[tostream] == ", "to_entries == ", ") == (.[] |= "))):
                     lawcases.add(len(cases) - 1 - (1 if ref else 0))        # (the definitional equalities of the `paths` forms are asserted as well)
         for g in [g for g in gen if g["d"] == 0]:
